@@ -30,9 +30,19 @@ def cases(tier):
 
 
 def run(ctx):
+    import contracts.wire     # noqa: F401
+    from pyvc.contract import REGISTRY
+    from pyvc import run as prun
+    cs = [c for c in REGISTRY.values() if 'C06' in c.props and c.__class__.__module__ == 'contracts.wire']
+    prun.run_contracts(ctx, cs, 'contracts.wire')
+    ctx.assume('builder model (contracts/wiremodel.py): a wire is (bitwidth, den); Block.add_net is modelled '
+               'as [obligation: WF_net] + [dest.den := documented value of the primitive]; WireVector / Const / '
+               'LogicNet constructors modelled as records; Const(int) through the _convert_int contract')
     combfam.run_comb_family(ctx, 'C06.operators', cases(ctx.tier), FUNCS,
                             'operator result differs from the exact integer result')
     ctx.assume('z3 soundness; spec/netsem.py; spec functions in fam/cases_ops.py state the documented result')
-    return ctx.finish('other', './check C06', ['z3', 'spec/netsem.py', 'elab/n2smt.py'],
-                      'bounded stand-in: each operator/helper elaborated by the real code per width '
-                      'combination; all operand values decided by SMT')
+    return ctx.finish('other', './check C06', ['z3', 'pyvc', 'spec/netsem.py', 'elab/n2smt.py'],
+                      'P: (len, den) contracts of _two_var_op, __invert__, __getitem__, _extend_with_bit, concat '
+                      'discharged by z3 for all widths and values over the builder model; bounded stand-in: '
+                      'each operator/helper elaborated by the real code per width combination; all operand '
+                      'values decided by SMT')
